@@ -20,6 +20,10 @@
 //!    trial, relative timing steered towards coincidence).  Sound oracle: if the poll returned Pending then, once the token is gone,
 //!    the waker it registered must have been woken.  observation: [lost wake-ups seen (must be 0)]; a supporting search for windows
 //!    that no deterministic hook reaches - it can miss, it cannot raise a false alarm.
+//! tok_many <n>: n tokens alive on ONE runner at the moment of shutdown (n may exceed 65535), the three youngest serving idle
+//!    connections, the others not yet run: the idle connections are woken and end without reading, every token run afterwards ends at
+//!    once without reading, then the shutdown future completes.  Harness-side assertions; observation [1] (the model's answer is the
+//!    property: C14_nothing_new, C14_idle_connection_stops).
 //! wg_run <tokens> <ops>: 1 = drop a token, 2 = (unused), 10+w = poll the shutdown future with a token drop forced into window w
 //!    (1 = before the poll, 2 = between Weak::upgrade and waker registration, 3 = after registration before the temporary
 //!    reference is dropped, 4 = after the poll).  observation per poll: [ready, wakes received by the waker of the most recent poll (cumulative), live tokens after]
@@ -42,6 +46,7 @@ pub fn dispatch(mode: &str, a: &Args) -> Option<Args> {
         "tok_fill" => tok_fill(a),
         "wg_run" => wg_run(a),
         "wg_race" => wg_race(a),
+        "tok_many" => tok_many(a),
         _ => return None,
     })
 }
@@ -502,4 +507,51 @@ fn wg_race(a: &Args) -> Args {
     sh.quit.store(true, Ordering::Release);
     th.join().expect("dropper thread");
     vec![vec![lost]]
+}
+
+
+/// see the module comment: tok_many
+fn tok_many(a: &Args) -> Args {
+    let n = (argn(a, 0) as usize).clamp(4, 200_000);
+    let runner = config(64, n).async_runner();
+    let noop = Waker::from(Arc::new(Count(AtomicUsize::new(0))));
+    let mut ncx = Context::from_waker(&noop);
+    let mut toks: Vec<Token> = Vec::with_capacity(n);
+    for _ in 0..n {
+        let fut = runner.get_token();
+        futures_util::pin_mut!(fut);
+        match fut.poll(&mut ncx) {
+            Poll::Ready(t) => toks.push(t),
+            Poll::Pending => panic!("a slot is free: get_token must complete at once"),
+        }
+    }
+    // the three YOUNGEST tokens serve idle connections, each with its own counting waker
+    let mut idle: Vec<(Pin<Box<dyn Future<Output = ()>>>, Arc<Count>)> = Vec::new();
+    for _ in 0..3 {
+        let t = toks.pop().expect("token");
+        let cnt = Arc::new(Count(AtomicUsize::new(0)));
+        let mut c: Pin<Box<dyn Future<Output = ()>>> = Box::pin(t.run(IdleReader, Sink, never_called()));
+        let w = Waker::from(cnt.clone());
+        assert!(c.as_mut().poll(&mut Context::from_waker(&w)).is_pending(), "an idle connection cannot finish");
+        idle.push((c, cnt));
+    }
+    let sdc = Arc::new(Count(AtomicUsize::new(0)));
+    let sdw = Waker::from(sdc.clone());
+    let mut sd = Box::pin(runner.shutdown());
+    assert!(sd.as_mut().poll(&mut Context::from_waker(&sdw)).is_pending(), "tokens are alive: the shutdown future must be pending");
+    for (k, (c, cnt)) in idle.iter_mut().enumerate() {
+        assert!(cnt.0.load(Ordering::SeqCst) > 0, "idle connection #{k} was not woken by the shutdown request");
+        let w = Waker::from(cnt.clone());
+        assert!(c.as_mut().poll(&mut Context::from_waker(&w)).is_ready(), "idle connection #{k} did not stop after the shutdown request");
+    }
+    drop(idle);
+    // tokens that are run only now: nothing new is started, each ends at once (a handler call would panic: never_called is not called
+    // because the transport is idle; a READ would leave the task pending)
+    for (k, t) in toks.drain(..).enumerate() {
+        let mut c: Pin<Box<dyn Future<Output = ()>>> = Box::pin(t.run(IdleReader, Sink, never_called()));
+        assert!(c.as_mut().poll(&mut ncx).is_ready(), "token #{k} started serving its connection although shutdown had been requested");
+    }
+    assert!(sdc.0.load(Ordering::SeqCst) > 0, "the last token is gone but the shutdown future was not woken");
+    assert!(sd.as_mut().poll(&mut Context::from_waker(&sdw)).is_ready(), "no token is left: the shutdown future must be ready");
+    vec![vec![1]]
 }
